@@ -264,6 +264,10 @@ def gen_plan(tape, cfg):
             if o["kind"] in ("illtyped_construct", "illtyped_subst", "unsupported", "redefine_symbol",
                              "undefined_symbol", "bad_hr", "bad_size_measure") and tape.chance(2, 3, "retry?"):
                 pending_retry.append(dict(o, op="both_fault"))
+            if o["kind"] == "unsupported" and o.get("service") in calls.DWF_SERVICES:
+                # later the service is taught about the node type (both twins), then asked again
+                pending_retry.insert(0, dict(o, op="both_fault"))
+                pending_retry.insert(0, {"op": "call", "call": "register_dwf", "i": 0, "service": o["service"]})
             if o["kind"] == "bad_cmdgen":
                 # later the same name is used by a command that does not bind it
                 pending_retry.insert(0, {"op": "cmdgen", "text": "(assert (= %s 3))" % BAD_CMDS[o["which"]][1]})
